@@ -1,9 +1,11 @@
 (* The expression fragment of the positive round-trip theorem of C02, and its token-level rendering.
    ex        : one-token operands (identifiers, integer / float / string literals, true / false, break / continue),
-               prefix operators, binary infix operators
+               prefix operators, binary infix operators, calls f(a, b), index expressions a[i]
    to_node   : the syntax tree of an ex
    toks c e  : the tokens the formatter emits for e when ExpressionPrecedence = c (parentheses exactly
-               where PrefixExpression.PrettyPrint / InfixExpression.PrettyPrint put them)
+               where PrefixExpression / InfixExpression / CallExpression / IndexExpression.PrettyPrint put them);
+               each token carries a flag "glued": no white space may precede it (the `(` of a call and the
+               `[` of an index expression, which the formatter always prints adjacent to the callee / operand)
    No proofs in this file. *)
 From Coq Require Import List ZArith NArith Bool String.
 From GrolGen Require Import Gen_Consts Gen_Prec Gen_ParserTables.
@@ -18,7 +20,9 @@ Inductive atom : Type :=
 Inductive ex : Type :=
 | EAtom (t : tok) (a : atom)
 | EPre (op : tok) (e : ex)
-| EBin (op : tok) (l r : ex).
+| EBin (op : tok) (l r : ex)
+| ECall (t : tok) (f : ex) (args : list ex)      (* t: the `(` token *)
+| EIndex (t : tok) (l i : ex).                   (* t: the `[` token *)
 
 Definition atom_node (t : tok) (a : atom) : node :=
   match a with
@@ -35,17 +39,24 @@ Fixpoint to_node (e : ex) : node :=
   | EAtom t a => atom_node t a
   | EPre op r => NPrefix op (Some (to_node r))
   | EBin op l r => NInfix op (Some (to_node l)) (Some (to_node r))
+  | ECall t f args => NCall t (Some (to_node f)) (Some (map (fun a => Some (to_node a)) args))
+  | EIndex t l i => NIndex t (Some (to_node l)) (Some (to_node i))
   end.
 
+(* the level above which the parser's expression loop no longer extends the expression *)
 Definition lvl (e : ex) : Z :=
   match e with
   | EBin op _ _ => precedence_of (ttype op)
   | EPre _ _ => ast_PREFIX
-  | _ => 100
+  | ECall _ _ _ | EIndex _ _ _ => ast_CALL
+  | EAtom _ _ => 100
   end.
 
 Definition LP : tok := mkTok token_LPAREN [40%N].
 Definition RP : tok := mkTok token_RPAREN [41%N].
+Definition LB : tok := mkTok token_LBRACKET [91%N].
+Definition RB : tok := mkTok token_RBRACKET [93%N].
+Definition CM : tok := mkTok token_COMMA [44%N].
 
 Definition is_plus (t : tok) : bool := Z.eqb (ttype t) token_PLUS.
 
@@ -54,7 +65,8 @@ Definition paren (c : Z) (e : ex) : bool :=
   match e with
   | EBin op _ _ => precedence_of (ttype op) <? c
   | EPre _ _ => ast_PREFIX <=? c
-  | _ => false
+  | EIndex t _ _ => precedence_of (ttype t) <? c
+  | ECall _ _ _ | EAtom _ _ => false
   end.
 
 (* the precedence in effect when the right operand of [op] is printed (fix 38a934c) *)
@@ -65,19 +77,39 @@ Definition right_ctx (op : tok) (r : ex) : Z :=
   | _ => q
   end.
 
-Fixpoint body (e : ex) : list tok :=
+(* a token and its "glued" flag *)
+Definition mtok : Type := (tok * bool)%type.
+Definition pl (t : tok) : mtok := (t, false).
+
+Fixpoint body (e : ex) : list mtok :=
+  let wrap := fun (c : Z) (x : ex) (b : list mtok) => if paren c x then pl LP :: b ++ [pl RP] else b in
   match e with
-  | EAtom t _ => [t]
-  | EPre op r => op :: (if paren ast_PREFIX r then LP :: body r ++ [RP] else body r)
+  | EAtom t _ => [pl t]
+  | EPre op r => pl op :: wrap ast_PREFIX r (body r)
   | EBin op l r =>
     let q := precedence_of (ttype op) in
-    (if paren q l then LP :: body l ++ [RP] else body l)
-    ++ [op] ++
-    (if paren (right_ctx op r) r then LP :: body r ++ [RP] else body r)
+    wrap q l (body l) ++ [pl op] ++ wrap (right_ctx op r) r (body r)
+  | ECall t f args =>
+    wrap ast_CALL f (body f) ++ [(t, true)]
+    ++ (fix go (l : list ex) : list mtok :=
+          match l with
+          | [] => []
+          | a :: rest => wrap ast_LOWEST a (body a) ++ match rest with [] => [] | _ => pl CM :: go rest end
+          end) args
+    ++ [pl RP]
+  | EIndex t l i =>
+    wrap (precedence_of (ttype t)) l (body l) ++ [(t, true)] ++ wrap ast_LOWEST i (body i) ++ [pl RB]
   end.
 
-Definition toks (c : Z) (e : ex) : list tok :=
-  if paren c e then LP :: body e ++ [RP] else body e.
+Definition toks (c : Z) (e : ex) : list mtok :=
+  if paren c e then pl LP :: body e ++ [pl RP] else body e.
+
+(* the argument list of a call, as the formatter prints it *)
+Fixpoint arg_toks (l : list ex) : list mtok :=
+  match l with
+  | [] => []
+  | a :: rest => toks ast_LOWEST a ++ match rest with [] => [] | _ => pl CM :: arg_toks rest end
+  end.
 
 (* well-formed fragment trees: token types as the parser dispatches them, literals consistent with the
    number oracle, and the one recorded finding of the fragment excluded (a + (b + c)) *)
@@ -106,6 +138,8 @@ Fixpoint wf_ex (conv : numconv) (e : ex) : bool :=
   | EBin op l r =>
     is_bin_op (ttype op) && wf_ex conv l && wf_ex conv r
     && negb (match r with EBin rop _ _ => is_plus op && is_plus rop | _ => false end)
+  | ECall t f args => Z.eqb (ttype t) token_LPAREN && wf_ex conv f && forallb (wf_ex conv) args
+  | EIndex t l i => Z.eqb (ttype t) token_LBRACKET && wf_ex conv l && wf_ex conv i
   end.
 
 (* recognise the fragment inside the general tree type *)
@@ -120,8 +154,23 @@ Fixpoint of_node (n : node) : option ex :=
   | NPrefix op (Some r) => match of_node r with Some e => Some (EPre op e) | None => None end
   | NInfix op (Some l) (Some r) =>
     match of_node l, of_node r with Some a, Some b => Some (EBin op a b) | _, _ => None end
+  | NCall t (Some f) (Some args) =>
+    match of_node f,
+          (fix go (l : list (option node)) : option (list ex) :=
+             match l with
+             | [] => Some []
+             | Some a :: r => match of_node a, go r with Some e, Some es => Some (e :: es) | _, _ => None end
+             | None :: _ => None
+             end) args with
+    | Some fe, Some es => Some (ECall t fe es)
+    | _, _ => None
+    end
+  | NIndex t (Some l) (Some i) =>
+    match of_node l, of_node i with Some a, Some b => Some (EIndex t a b) | _, _ => None end
   | _ => None
   end.
+
+Definition plain_toks (l : list mtok) : list tok := map fst l.
 
 (* the token sequence the theorem fragment_program_roundtrip speaks about, for a program that consists of
    one fragment expression; None when the program is not of that shape *)
@@ -129,7 +178,7 @@ Definition frag_tokens (conv : numconv) (stmts : list (option node)) : option (l
   match stmts with
   | [Some n] =>
     match of_node n with
-    | Some e => if wf_ex conv e then Some (body e) else None
+    | Some e => if wf_ex conv e then Some (plain_toks (body e)) else None
     | None => None
     end
   | _ => None
@@ -161,8 +210,8 @@ Fixpoint frag_exprs (conv : numconv) (stmts : list (option node)) : option (list
 Definition frag_prog_tokens (conv : numconv) (stmts : list (option node)) : option (option (list tok)) :=
   match stmts, frag_exprs conv stmts with
   | _ :: _, Some es =>
-    if forallb (fun e => match body e with t :: _ => fresh_type (ttype t) | [] => false end) (tl es)
-    then Some (Some (List.concat (map body es)))
+    if forallb (fun e => match body e with t :: _ => fresh_type (ttype (fst t)) | [] => false end) (tl es)
+    then Some (Some (List.concat (map (fun e => plain_toks (body e)) es)))
     else Some None
   | _, _ => None
   end.
